@@ -425,11 +425,14 @@ package kcp
 //@ pred sameOrFreshSlice(a []ackItem, b []ackItem) = ref(a) == ref(b) || fresh(a)
 //
 //@ func KCP.Input
-//@   callsite KCP.parse_data requires @C11 [only-segments-of-this-conversation-are-processed] conv == kcp.conv
-//@   callsite KCP.parse_una requires @C11 [only-segments-of-this-conversation-are-processed] conv == kcp.conv
-//@   callsite KCP.parse_ack requires @C11 [only-segments-of-this-conversation-are-processed] conv == kcp.conv
-//@   callsite KCP.parse_fastack requires @C11 [only-segments-of-this-conversation-are-processed] conv == kcp.conv
-//@   callsite KCP.ack_push requires @C11 [only-segments-of-this-conversation-are-processed] conv == kcp.conv
+//@   callsite KCP.parse_data requires @C11 [only-segments-of-this-conversation-are-processed] le32(data, 0 - 24) == kcp.conv
+//@   callsite KCP.parse_una requires @C11 [only-segments-of-this-conversation-are-processed] le32(data, 0 - 24) == kcp.conv
+//@   callsite KCP.parse_una requires @C09 [una-read-from-its-wire-offset] una == le32(data, 0 - 8)
+//@   callsite KCP.parse_ack requires @C09 [sn-read-from-its-wire-offset] sn == le32(data, 0 - 12)
+//@   callsite KCP.ack_push requires @C09 [sn-and-ts-read-from-their-wire-offsets] sn == le32(data, 0 - 12) && ts == le32(data, 0 - 16)
+//@   callsite KCP.parse_ack requires @C11 [only-segments-of-this-conversation-are-processed] le32(data, 0 - 24) == kcp.conv
+//@   callsite KCP.parse_fastack requires @C11 [only-segments-of-this-conversation-are-processed] le32(data, 0 - 24) == kcp.conv
+//@   callsite KCP.ack_push requires @C11 [only-segments-of-this-conversation-are-processed] le32(data, 0 - 24) == kcp.conv
 //@   ensures @C01 [receive-queue-in-sequence-order] old(kcp.rcvQ()) ==> kcp.rcvQ()
 //@   loop 1 invariant old(kcp.rcvQ()) ==> kcp.rcvQ()
 //@   requires kcp.wf()
@@ -752,6 +755,7 @@ package kcp
 // parity packets (0xf2) and short FEC data packets carry none.
 //@ spec pktKind(d []byte) int = le16(d, 4)
 //@ spec pktHasConv(d []byte) bool = (pktKind(d) == 241 && len(d) >= 32) || pktKind(d) == 243 || (pktKind(d) != 241 && pktKind(d) != 242 && pktKind(d) != 243 && len(d) >= 24)
+//@ spec pktSn(d []byte) int = pktKind(d) == 243 ? 0 : (pktKind(d) == 241 ? le32(d, 20) : le32(d, 12))
 //@ spec pktConv(d []byte) int = (pktKind(d) == 241 || pktKind(d) == 243) ? le32(d, 8) : le32(d, 0)
 //
 // Listener.packetInput is verified in sequential mode for its own effects (C06, C11): the
@@ -767,6 +771,7 @@ package kcp
 //@   callsite UDPSession.kcpInput requires @C11 [conversation-id-matches] !hasConv || conv == s.kcp.conv
 //@   callsite UDPSession.kcpInput requires @C11 @C19 [packet-conversation-matches-session] pktHasConv(data) ==> pktConv(data) == s.kcp.conv
 //@   callsite UDPSession.Close requires @C11 [close-only-on-new-conversation-start] exist && hasConv && conv != s.kcp.conv && sn == 0 && s == old(l.sessions[addrstr(addr)])
+//@   callsite UDPSession.Close requires @C11 [close-only-on-new-conversation-start-by-wire-format] pktHasConv(data) && pktConv(data) != s.kcp.conv && pktSn(data) == 0
 //@   callsite newUDPSession requires @C11 [create-only-when-unmapped-or-dead-and-identified] pktHasConv(data) && (!in(l.sessions, addrstr(addr)) || oncedone(l.sessions[addrstr(addr)].dieOnce))
 //@   ensures @C06 [rejected-packet-has-no-effect] (forall o int :: callsat(UDPSession.kcpInput, o) == old(callsat(UDPSession.kcpInput, o)))
 //@        && (forall o int :: callsat(UDPSession.Close, o) == old(callsat(UDPSession.Close, o))) && calls(newUDPSession) == old(calls(newUDPSession))
